@@ -126,7 +126,7 @@ fn main() {
             let ctx = Ctx::new("C20", tier, "exploration");
             ctx.set_rule("proptest-generated model messages (domain of C01, utc_dir widened to any char) serialised with serde_json and deserialised: header, groups, names, values must be equal WITHOUT identifying one-element sets; re-serialising gives the same JSON document (map-order-insensitive); payload reads as empty afterwards; bare IppAttributes and every bare IppValue round-trip too. Non-trivial = contains a raw-octet (Other) value with data, a collection nested >=2, or non-ASCII text/char; distinct by hash of the model message.");
             ctx.assume("JSON (serde_json) is the carrier format");
-            let (shards, per) = tier.pick((16, 1500), (16, 40000));
+            let (shards, per) = tier.pick((16, 6000), (16, 100000));
             run_prop(&ctx, "serde-roundtrip", shards, per, case, judge, |c| mmsg_json(&c.m));
             std::process::exit(ctx.finish());
         }
